@@ -279,3 +279,11 @@ func RunReplay(t *testing.T, harnesses map[string]func()) {
 		fmt.Printf("VSYM-END %d\n", k)
 	}
 }
+
+func IntRange(name string, lo, hi int) int {
+	v := int(int64(bits(name)))
+	if v < lo || v > hi {
+		panic(assumeFailed{})
+	}
+	return v
+}
